@@ -314,10 +314,9 @@ class WaitInitiatorCEA(State):
             if has_recv_cea(self.msg):
                 self.event_open_rcv_cea()            
 
-            elif has_recv_cer(self.msg):
-                self.event_responder_conn_cer()
-
             else:
+                #: Anything but a CEA on the initiator's own connection, a 
+                #: CER included, is I-Rcv-Non-CEA (election is not supported).
                 self.event_initiator_rcv_non_cea()
 
 
